@@ -127,3 +127,17 @@ package git
 //@ ensures result != nil && InfoOK(result)
 //@ loop 1 invariant infos != nil && InfoOK(infos)
 //@ loop 2 invariant infos != nil && InfoOK(infos)
+
+// C08 / C15, code-age table: the rows are ordered by sort.Slice with "older first" on the rows' own ages (a comparison
+// that does not look at both rows leaves the order to the map iteration)
+//@ closure CalculateCodeAge$1
+//@ requires 0 <= i && i < len(*agesArray) && 0 <= j && j < len(*agesArray)
+//@ ensures result == ExtCall("(time.Time).Before", (*agesArray)[i].Age, (*agesArray)[j].Age)
+// team summary: more revisions first
+//@ closure GetTeamSummary$1
+//@ requires 0 <= i && i < len(*sortInfos) && 0 <= j && j < len(*sortInfos)
+//@ ensures result == ((*sortInfos)[i].RevsCount > (*sortInfos)[j].RevsCount)
+// top authors: more commits first
+//@ closure GetTopAuthors$1
+//@ requires 0 <= i && i < len(*topAuthors) && 0 <= j && j < len(*topAuthors)
+//@ ensures result == ((*topAuthors)[i].CommitCount > (*topAuthors)[j].CommitCount)
